@@ -1,5 +1,6 @@
 SPECIFICATION Spec
 INVARIANT PipelineTransparent
 INVARIANT FlagMeansGz
+INVARIANT WrongMd5Refused
 INVARIANT Emit
 CHECK_DEADLOCK FALSE
